@@ -167,7 +167,6 @@ def h_driver(ctx, pname, rec, driver, intx=False):
             H = hessian_oracle(ctx, algopy, A, prog, xs, w=w)
             ctx.eq(np.asarray(plain(r), dtype=object).reshape(H.shape), H, 'vec_hess')
         elif driver == 'vec_hess_vec':
-            ctx.fact(M == N, 'vec_hess_vec needs M == N')
             w = _vec(ctx, 'w', M)
             v = _vec(ctx, 'v', N)
             r = cg.vec_hess_vec(_arr(ctx, w), x, _arr(ctx, v))
@@ -266,8 +265,6 @@ def units(tier, seed):
                 out.append(Unit('C04/%s/%s/rec=%s' % (pn, drv, r), 'symx.props.c04', 'h_driver', {'pname': pn, 'rec': r, 'driver': drv}, dict(opts)))
     for pn in vprogs:
         for drv in ['jacobian', 'jac_vec', 'vec_jac', 'vec_hess', 'vec_hess_vec', 'jacobian(utpm D2,P2)']:
-            if drv == 'vec_hess_vec' and pn in ('x[1:]*x[:-1]', 'tile'):
-                continue
             rec = recs[k % 3]
             k += 1
             out.append(Unit('C04/%s/%s/rec=%s' % (pn, drv, rec), 'symx.props.c04', 'h_driver', {'pname': pn, 'rec': rec, 'driver': drv}, dict(opts)))
